@@ -17,7 +17,8 @@ Proof. exact pos_all_sound. Qed.
 
 Theorem C07_interior_soc_sound :
   forall t r, soc_int (t :: r) = true ->
-    (0 < d2Q t)%Q /\ (Qsum (map (fun x => d2Q x * d2Q x) r) < d2Q t * d2Q t)%Q.
+    (0 < d2Q t)%Q /\
+    (Qsum (map (fun x => d2Q x * d2Q x) r) < d2Q t * d2Q t * (1 + d2Q soc_slack))%Q.
 Proof. exact soc_int_sound. Qed.
 
 (** the damped step computed by calc_step_length keeps the homogenisation scalars positive
